@@ -53,7 +53,9 @@ def gen_cases(tier, seed):
     isos = workload.all_isos()
     hostile = workload.rotate([i for i in workload.HOSTILE if i in isos], seed)
     nrow = 4 if tier == "quick" else 20
-    rows = (hostile[:nrow - 1] + ["SWT"]) if "SWT" not in hostile[:nrow - 1] else hostile[:nrow]
+    if tier == "thorough":
+        hostile = isos  # every row of the table
+    rows = list(hostile) if tier == "thorough" else ((hostile[:nrow - 1] + ["SWT"]) if "SWT" not in hostile[:nrow - 1] else hostile[:nrow])
     # the three countries whose options the repository rewrites on purpose are always exercised
     rows = rows + [i for i in ("SLV", "ALB", "ECU") if i not in rows]
     cases = []
@@ -63,7 +65,7 @@ def gen_cases(tier, seed):
         cases.append({"kind": "overrides", "iso": iso, "gen_seed": seed * 13 + 1, "id": "overrides/%s" % iso})
     for k in range(4 if tier == "quick" else 16):
         cases.append({"kind": "setter_pairs", "shard": k, "nshards": 4 if tier == "quick" else 16, "id": "setter_pairs#%d" % k})
-    sp_rows = (["SWT", "ARG", "IND", "MNG"] if tier == "quick" else ["SWT"] + rnd.sample(isos, 24))
+    sp_rows = (["SWT", "ARG", "IND", "MNG"] if tier == "quick" else ["SWT"] + rnd.sample([i for i in isos if i != "SWT"], 60))
     for iso in sp_rows:
         cases.append({"kind": "head_overrides", "iso": iso, "species": SPECIES, "gen_seed": seed, "id": "heads/%s" % iso})
     for iso in (["ARG", "LUX"] if tier == "quick" else ["ARG", "LUX", "SWT", "USA", "DJI", "NZL"]):
